@@ -30,6 +30,7 @@ import typing as T
 from . import common, projgen
 from . import c05_exec as X
 from . import c05_gen
+from . import c05_depmx
 from .common import Ctx, enc
 
 ID = 'C05'
@@ -53,6 +54,13 @@ PINS = [
     'mesonbuild.backend.backends:Backend.get_target_depend_files',
     'mesonbuild.backend.backends:Backend.eval_custom_target_command',
     'mesonbuild.build:flatten_command',
+    'mesonbuild.dependencies.base:InternalDependency.get_partial_dependency',
+    'mesonbuild.dependencies.base:InternalDependency.generate_link_whole_dependency',
+    'mesonbuild.dependencies.base:InternalDependency.get_as_static',
+    'mesonbuild.dependencies.base:InternalDependency.get_as_shared',
+    'mesonbuild.dependencies.base:Dependency.generate_system_dependency',
+    'mesonbuild.interpreter.interpreterobjects:DependencyHolder',
+    'mesonbuild.build:BuildTarget.add_deps',
     'mesonbuild.build:StaticLibrary.link',
     'mesonbuild.build:StaticLibrary.link_whole',
     'mesonbuild.backend.backends:Backend.flatten_object_list',
@@ -200,6 +208,25 @@ def make_jobs(ctx: Ctx) -> T.List[dict]:
             args = []      # a generator-made header is included by its path below the build root, which layout=flat changes
         jobs.append({'id': f'gen/{k}', 'files': spec['files'], 'args': args, 'seed': rng.getrandbits(40),
                      'n_random': n_rand, 'features': spec['features']})
+    # dependency-object matrix: header provenance x reach x transformation chain (methods enumerated from the live classes)
+    grid = [(p, r) for p in c05_depmx.PROVENANCES for r in c05_depmx.REACHES]
+    if ctx.deep:
+        picks = grid
+    else:
+        picks = [('ct', 'nested1'), ('generator', 'nested2')] + rng.sample([x for x in grid if x[0] != 'configure_file'], 2)
+    for prov, reach in picks:
+        sub = random.Random(rng.getrandbits(48))
+        spec = c05_depmx.gen_systematic(sub, prov, reach, ctx.scale(2, 4))
+        jobs.append({'id': f'mx/{prov}/{reach}', 'files': spec['files'], 'args': [], 'seed': rng.getrandbits(40), 'n_random': 0,
+                     'cells': spec['cells'], 'unknown_methods': spec['unknown_methods'],
+                     'features': ['depmx:provenance:' + prov, 'depmx:reach:' + reach]})
+    for k in range(ctx.scale(0, 10)):
+        sub = random.Random(rng.getrandbits(48))
+        spec = c05_depmx.gen_random(sub, 16)
+        jobs.append({'id': f'mx/random/{k}', 'files': spec['files'], 'args': rng.choice([[], [], ['-Dunity=on'], ['--layout=flat'],
+                                                                                         ['-Ddefault_library=static']]),
+                     'seed': rng.getrandbits(40), 'n_random': 0, 'cells': spec['cells'],
+                     'unknown_methods': spec['unknown_methods'], 'features': ['depmx:random']})
     for k in range(ctx.scale(2, 30)):
         sub = random.Random(rng.getrandbits(48))
         tmp = common.scratch_dir('c05-pg-')
@@ -302,9 +329,9 @@ def absorb(ctx: Ctx, job: dict, r: dict) -> None:
     ctx.tag('project:' + r.get('status', '?'))
     if r.get('status') != 'ok':
         ctx.notes.append(f"{job['id']}: {r.get('status')} {str(r.get('broken') or r.get('out') or '')[:300]}")
-        if r.get('status') == 'configure-failed' and job['id'].split('/')[0] in ('corpus', 'gen'):
+        if r.get('status') == 'configure-failed' and job['id'].split('/')[0] in ('corpus', 'gen', 'mx'):
             ctx.tag('valid-by-construction-project-did-not-configure')
-        if r.get('status') == 'broken' and job['id'].split('/')[0] in ('corpus', 'gen'):
+        if r.get('status') == 'broken' and job['id'].split('/')[0] in ('corpus', 'gen', 'mx'):
             # these projects are valid by construction (and build under the default options): a step that fails under
             # *every* schedule violates "any valid schedule succeeds" just as well
             d = r.get('broken_detail', {})
@@ -331,9 +358,26 @@ def absorb(ctx: Ctx, job: dict, r: dict) -> None:
     if r.get('status') == 'ok' and r.get('n_exec', 0) >= 3:
         ctx.seen_nontrivial(job['id'])
     ctx.sample({'project': job['id'], 'steps': r.get('n_exec'), 'kinds': r.get('kinds'), 'wall': r.get('wall')})
+    for c in job.get('cells', []):
+        ctx.tag('depmx:cells')
+        ctx.tag('depmx:consumer:' + c['kind'])
+        for st in c['chain']:
+            ctx.tag('depmx:step:' + st[0])
+        ctx.tag('depmx:chain-length:%d' % len(c['chain']))
+        ctx.tag('depmx:consumer-includes-header' if c['includes_header'] else 'depmx:consumer-must-not-include-header')
+    for m in job.get('unknown_methods', []):
+        ctx.tag('depmx:method-without-semantics-entry:' + m)
+        note = f'dependency method {m!r} is enumerated from DependencyHolder but has no entry in c05_depmx.SEMANTICS: assumed to keep everything'
+        if note not in ctx.notes:
+            ctx.notes.append(note)
     for f in r.get('findings', []):
         case = {'project': job['id'], 'finding': f['detail'],
                 'job': {k: job[k] for k in ('id', 'files', 'args', 'seed', 'n_random')}}
+        step = str(f['detail'].get('step', ''))
+        for c in job.get('cells', []):
+            if c['consumer'] + '.' in step or step.endswith(c['consumer']):
+                case['cell'] = c
+                break
         ctx.violation(f['key'], f['what'], case)
 
 
@@ -359,6 +403,9 @@ def run(ctx: Ctx) -> None:
         'coverage/scan-build/clang-format/clang-tidy) and the phony aliases that depend on them',
         'clean builds only (no incremental state: restat, depfile-discovered edges of a previous build are out of scope)',
         'C projects; no Fortran/Rust/Vala/D module-ordering edges',
+        'dependency transformations: every DependencyHolder method returning a dependency is enumerated from the live class; what '
+        'each keeps (sources / include dirs / link) is the table c05_depmx.SEMANTICS, written from the reference manual; '
+        'add_project_dependencies() rejects dependencies with sources or libraries and therefore cannot carry a generated header',
     ]
     jobs = make_jobs(ctx)
     t0 = time.time()
